@@ -88,6 +88,27 @@ theorem leftover_is_registered (slot : Cond → Bool) (evs : List Ev) (t : Task)
     slot c = true ∧ (c, t) ∈ (run slot init evs).regs :=
   left_lem slot evs t c hl
 
+/-- several waiters on one condition: at every reachable state no task is both Pending and unregistered unless
+    its waker has fired since its last poll … -/
+theorem pending_is_registered_or_woken (slot : Cond → Bool) (evs : List Ev) (t : Task) (c : Cond)
+    (hw : (run slot init evs).waiting t = some c) :
+    (run slot init evs).woken t = true ∨ (c, t) ∈ (run slot init evs).regs :=
+  pending_registered_lem slot evs t c hw
+
+/-- … because every poll that returns Pending registers the task again — in particular the poll of a woken
+    "loser" that finds the condition already consumed by another task (the retry loop of `poll_accept`,
+    `poll_open`, `ReadDatagram`, `SendDatagram`, `Accept`: a fresh `Notified` is POLLED before Pending is returned) … -/
+theorem loser_reregisters (slot : Cond → Bool) (s : St) (t : Task) (c : Cond) (consume : Bool)
+    (hr : (s.poll slot t c consume).2 = false) :
+    (c, t) ∈ (s.poll slot t c consume).1.regs ∧ (s.poll slot t c consume).1.waiting t = some c ∧
+    (s.poll slot t c consume).1.woken t = false :=
+  poll_pending_lem slot s t c consume hr
+
+/-- … and a wake of a condition reaches every task registered for it, however many (`notify_waiters`) -/
+theorem wake_reaches_every_waiter (s : St) (c : Cond) (t : Task) (hr : (c, t) ∈ s.regs) :
+    (s.wakeCond c).woken t = true :=
+  wake_reaches_all s c t hr
+
 -- non-vacuity. Conditions 0,1 are waker-map slots (streams), 2.. are Notified conditions; tasks 7, 8.
 def slotEx : Cond → Bool := fun c => c < 2
 
@@ -117,6 +138,15 @@ example : ((run slotEx init [.poll 7 0 true, .drive [0] []]).poll slotEx 7 0 tru
     ((run slotEx init [.poll 7 0 true, .drive [0] []]).poll slotEx 7 0 true).1.holds 0 = false := by decide
 /-- the protocol matters: a driver that sets the condition WITHOUT waking loses the wakeup (state not reachable) -/
 example : ({ (run slotEx init [.poll 7 0 true]) with holds := fun _ => true } : St).woken 7 = false := by decide
+/-- two acceptors (7, 8) wait on the same Notified condition 2; a stream arrives: both are woken; 7 wins and
+    consumes it; the loser 8 polls, finds nothing, is registered again; the next stream wakes it -/
+def histC : List Ev := [.poll 7 2 true, .poll 8 2 true, .drive [2] [], .poll 7 2 true, .poll 8 2 true]
+example : (run slotEx init (histC.take 3)).woken 7 = true ∧ (run slotEx init (histC.take 3)).woken 8 = true ∧
+    (run slotEx init (histC.take 3)).regs = [] ∧
+    (run slotEx init histC).waiting 7 = none ∧ (run slotEx init histC).holds 2 = false ∧
+    (run slotEx init histC).waiting 8 = some 2 ∧ (run slotEx init histC).woken 8 = false ∧
+    (run slotEx init histC).regs = [(2, 8)] ∧
+    (run slotEx init (histC ++ [.drive [2] []])).woken 8 = true := by decide
 example : anchors.length = 21 := by decide
 
 end QM.Props.C18
